@@ -263,7 +263,8 @@ ARGS_LOOP:
 					// extra completion so there is no trailing space automatically
 					// inserted by bash.
 					// This extra completion has nice documentation on what the option expects.
-					if len(completions) == 1 && strings.HasSuffix((completions)[0], "=") {
+					// Only when completing the option name: a suggested value can end with = too (key= for a map option).
+					if len(completions) == 1 && strings.HasSuffix((completions)[0], "=") && !strings.Contains(partialOption, "=") {
 						if lastOpt.SuggestedValues != nil && len(lastOpt.SuggestedValues) > 0 {
 							for _, e := range lastOpt.SuggestedValues {
 								completions = append(completions, completions[0]+e)
